@@ -45,6 +45,17 @@ SPECS = {
   "harnesses": [{"file": "C19_validate.cpp", "entries": [{"entry": "vh_c19_conforming"}]
         + [{"entry": "vh_c19_array", "label": "vh_c19_array.r%d.n%d.k%d" % (r, n, k), "fix": {"rank": r, "ndims": n, "kind#0": k}} for r in range(2) for n in range(3) for k in range(4) if not (r == 0 and n == 0 and k > 0)]
         + [{"entry": "vh_c19_tags", "label": "vh_c19_tags.m%d.n%d.d%d" % (m, n, u), "fix": {"multi": m, "ntagunits": n, "dimunit#0": u}} for m in range(2) for n in range(3) for u in range(3)]}]},
+ "C20": {
+  "explanation": "Full stack on the HDF5 model: section and source trees of symbolic shape (child counts by fork, names a/b/c re-used at different places) are searched with Section::findSections / File::findSections / Source::findSources / Block::findSources under accept-all, id, name and id-set filters and every depth limit 0..depth+1 plus the unlimited default, from every start node, and compared (elements and order) with a breadth-first traversal computed by the harness from the construction record; parentSource() for every source; referring* back references under symbolic metadata / source assignments (incl. same-named arrays in two blocks); inheritedProperties for all subsets of own and linked property names.",
+  "bounds": {"quick": {"depth": "<= 3 levels (one root) / 2 levels (two roots)", "branching": "<= 2", "filters": 4, "depth_limits": "0..4 and default", "start_nodes": "the first two"},
+             "thorough": {"depth": "<= 3 levels", "branching": "<= 2", "roots": "1..2", "start_nodes": "all"}},
+  "outside": ["TypeFilter (boost::regex)", "depth 5 / branching 4 of the statement (4^5 nodes)", "findRelated (covered only through findSections)", "searches after deletions"],
+  "assumptions": ["libhdf5 replaced by h5model"],
+  "harnesses": [{"file": "C20_search.cpp", "defines": {"quick": ["-DVH_DEPTH=3", "-DVH_BRANCH=2", "-DVH_STARTS=2"], "thorough": ["-DVH_DEPTH=3", "-DVH_BRANCH=2", "-DVH_STARTS=64"]},
+     "entries": [{"entry": e, "label": "%s.r0.l%d.c%d.f%d" % (e, l, c, fl), "fix": {"roots": 0, "levels": l, "children#0": c, "filter": fl}, "tiers": (["quick", "thorough"] if (l == 1 and c > 0) or (l == 0 and c == 2) else ["thorough"])} for e in ("vh_c20_sections", "vh_c20_sources") for l in range(2) for c in range(3) for fl in range(4)]
+               + [{"entry": e, "label": "%s.r1.l%d.c%d.f%d" % (e, l, c, fl), "fix": {"roots": 1, "levels": l, "children#0": c, "filter": fl}, "tiers": (["quick", "thorough"] if l == 0 and c == 1 else ["thorough"])} for e in ("vh_c20_sections", "vh_c20_sources") for l in range(2) for c in range(3) for fl in range(4)]
+               + [{"entry": "vh_c20_backrefs", "label": "vh_c20_backrefs.m%d.a%d" % (m, a), "fix": {"md#0": m, "md#1": a}} for m in range(3) for a in range(3)]
+               + [{"entry": "vh_c20_inherited", "label": "vh_c20_inherited.l%d" % l, "fix": {"link": l}} for l in range(2)]}]},
  "C01": {
   "explanation": "Full stack on the HDF5 model for 10 numeric element types plus Bool and String: bounded histories of hyperslab writes (offset/count inside, touching and crossing the edge), appends along each axis, extent changes (grow/shrink) and sub-region reads with symbolic element values, compared with a dense reference array after every step and after reopen; reads as other numeric types; calibration polynomial/origin in the exact regime (integer-valued doubles) with raw reads unaffected; kernel checks of applyPolynomial (arbitrary doubles, order-independent facts) and guessChunking.",
   "bounds": {"quick": {"history_steps": 2, "rank": "1..2", "extent": "<= 3 per axis (4 after append)", "values": "symbolic, full range of the type", "polynomial": "degree <= 2, |coef| < 1024, |x|,|origin| < 256"},
